@@ -10,6 +10,7 @@ import pool
 TARGETS = ["Properties/C02.vo"]
 
 F5_SRC = "subroutine subTwo\nend subroutine subTwo\nxPos = 1\nend\n"
+SUFFIX_SRC = "function f(a) bind(c) result(r)\nreal :: a, r\nr = a\nend function f\n"
 BOZ_SRC = "program progMain\ninteger :: kk = z'1f' + b'01' + o'17'\nend program progMain\n"
 F8_SRC = "program progMain\nprint *, 'F2PY_EXPR_TUPLE_1', (xPos+1)*2\nend program progMain\n"
 
@@ -103,7 +104,11 @@ def run(ctx):
     if ob.kind == "tree" and "'1f'" not in str(ob.tree):
         failures.append(("boz_digits_case_folded", "recorded finding still present: %r" % str(ob.tree).split("\n")[1],
                          dict(std="f2003", source=BOZ_SRC)))
-    e2e = dict(cases=len(jobs) + 3, distinct=len(set(j[1] for j in jobs)), programs=nprog, failures=failures,
+    osf = fp.parse(SUFFIX_SRC, std="f2003")
+    if osf.kind == "tree" and "bind(c)result(r)" not in str(osf.tree).lower().replace(" ", ""):
+        failures.append(("function_suffix_order_normalised", "recorded finding still present: %r" % str(osf.tree).split("\n")[0],
+                         dict(std="f2003", source=SUFFIX_SRC)))
+    e2e = dict(cases=len(jobs) + 4, distinct=len(set(j[1] for j in jobs)), programs=nprog, failures=failures,
                rule="generated valid programs x free-form layouts (continuation at token boundaries and inside "
                     "literals, leading '&' or not, blank/comment lines, trailing comments, ';' joins, keyword case), "
                     "comments dropped and kept: normalise(tokens(str(parse(layout)))) == normalise(tokens(canonical)) "
